@@ -150,6 +150,100 @@ def is_const(e):
 
 
 # --------------------------------------------------------------------------
+# rational functions as pairs of monomial dictionaries (tolerant comparison of terms that bake in rounded float constants)
+
+def _pmul(p, q_):
+    out = {}
+    for m1, c1 in p.items():
+        for m2, c2 in q_.items():
+            m = tuple(sorted(m1 + m2))
+            out[m] = out.get(m, Fraction(0)) + c1 * c2
+    return out
+
+
+def _padd(p, q_, sign=1):
+    out = dict(p)
+    for m, c in q_.items():
+        out[m] = out.get(m, Fraction(0)) + sign * c
+    return out
+
+
+_PONE = {(): Fraction(1)}
+
+
+def ratpoly(t, atoms=None):
+    """z3 real term -> (numerator, denominator) as {sorted tuple of atom names: Fraction}; atoms: name -> z3 constant"""
+    if atoms is None:
+        atoms = {}
+
+    def rec(t):
+        if z3.is_rational_value(t) or z3.is_int_value(t):
+            return {(): frac_of(t)}, _PONE
+        k = t.decl().kind()
+        ch = t.children()
+        if k == z3.Z3_OP_ADD or k == z3.Z3_OP_SUB:
+            n, d = rec(ch[0])
+            for c in ch[1:]:
+                n2, d2 = rec(c)
+                n = _padd(_pmul(n, d2), _pmul(n2, d), 1 if k == z3.Z3_OP_ADD else -1)
+                d = _pmul(d, d2)
+            return n, d
+        if k == z3.Z3_OP_UMINUS:
+            n, d = rec(ch[0])
+            return {m: -c for m, c in n.items()}, d
+        if k == z3.Z3_OP_MUL:
+            n, d = _PONE, _PONE
+            for c in ch:
+                n2, d2 = rec(c)
+                n, d = _pmul(n, n2), _pmul(d, d2)
+            return n, d
+        if k == z3.Z3_OP_DIV:
+            n, d = rec(ch[0])
+            n2, d2 = rec(ch[1])
+            return _pmul(n, d2), _pmul(d, n2)
+        if k == z3.Z3_OP_POWER and is_const(ch[1]) and frac_of(ch[1]).denominator == 1:
+            e = int(frac_of(ch[1]))
+            n, d = rec(ch[0])
+            if e < 0:
+                n, d, e = d, n, -e
+            rn, rd = _PONE, _PONE
+            for _ in range(e):
+                rn, rd = _pmul(rn, n), _pmul(rd, d)
+            return rn, rd
+        if k == z3.Z3_OP_TO_REAL:
+            return rec(ch[0])
+        if z3.is_const(t) and k == z3.Z3_OP_UNINTERPRETED:
+            atoms[str(t)] = t
+            return {(str(t),): Fraction(1)}, _PONE
+        raise HarnessError(f"ratpoly: unsupported term {t.decl()}")
+    return rec(t)
+
+
+def _pclose(p, q_, tol):
+    scale = max([abs(c) for c in p.values()] + [abs(c) for c in q_.values()] + [Fraction(0)])
+    return all(abs(p.get(m, Fraction(0)) - q_.get(m, Fraction(0))) <= Fraction(tol) * scale for m in set(p) | set(q_))
+
+
+def rat_close(a, b, tol):
+    """a ~ b as rational functions: cross-multiplied polynomials agree up to tol * (largest coefficient) in every coefficient"""
+    (n1, d1), (n2, d2) = a, b
+    return _pclose(_pmul(n1, d2), _pmul(n2, d1), tol)
+
+
+def poly_term(p, atoms):
+    """monomial dictionary -> z3 term"""
+    tot = None
+    for m, c in sorted(p.items()):
+        if c == 0:
+            continue
+        t = z3.RealVal(str(c))
+        for a in m:
+            t = t * atoms[a]
+        tot = t if tot is None else tot + t
+    return z3.RealVal(0) if tot is None else tot
+
+
+# --------------------------------------------------------------------------
 # path context
 
 
@@ -254,14 +348,10 @@ class Ctx:
             # harness switch (C28): arguments that are the same polynomial up to a perturbation of every coefficient by `tol`
             # times the largest coefficient (the same quantity computed by two implementations with differently rounded float constants)
             # share one application
-            from .harness import poly_of
-            from fractions import Fraction
             try:
-                pa = poly_of(arg)
+                ra = ratpoly(arg)
                 for (a2, v2) in lst:
-                    pb = poly_of(a2)
-                    scale = max([abs(c) for c in pa.values()] + [abs(c) for c in pb.values()] + [Fraction(0)])
-                    if all(abs(pa.get(m, Fraction(0)) - pb.get(m, Fraction(0))) <= Fraction(tol) * scale for m in set(pa) | set(pb)):
+                    if rat_close(ra, ratpoly(a2), tol):
                         self.apps[key] = (arg, v2)
                         return v2
             except HarnessError:
@@ -446,6 +536,30 @@ def _exp_term(t):
         return _ONE
     key = ("exp", t.sexpr())
     isnew = key not in c.apps
+    tol = getattr(c, "uf_tol", None)
+    if tol is not None and isnew:
+        # harness switch (C28): exp(a + r) = exp(a) * exp(r) when exp(a) already exists and every monomial of a occurs in
+        # the argument with the same coefficient (up to tol): the two implementations group the exponent differently
+        try:
+            atoms = {}
+            n, d = ratpoly(t, atoms)
+            for (a2, v2) in list(c.by_f.get("exp", [])):
+                n2, d2 = ratpoly(a2, atoms)
+                if d2 != _PONE or not n2:
+                    continue
+                sub = _pmul(n2, d)
+                if not all(m in n and abs(n[m] - cf) <= Fraction(tol) * abs(cf) for m, cf in sub.items()):
+                    continue
+                scale = max(abs(cf) for cf in n.values())
+                rest = {m: cf for m, cf in _padd(n, sub, -1).items() if abs(cf) > Fraction(tol) * scale}
+                if len(rest) >= len(n):
+                    continue
+                if not rest:
+                    return v2
+                rt = poly_term(rest, atoms) / poly_term(d, atoms) if d != _PONE else poly_term(rest, atoms)
+                return simp(v2 * _exp_term(rt))
+        except HarnessError:
+            pass
     v = c.app("exp", t, _exp_axioms)
     c.data.setdefault("exp_of", {})[v.sexpr()] = t
     if isnew:
